@@ -83,6 +83,14 @@ CHECKS["C09"] = dict(
     design="5/C09",
 )
 
+CHECKS["C18"] = dict(
+    engine="E1-config-lattice",
+    technique="exhaustive enumeration of feature-family combinations and of a single-fault invalid-argument alphabet; every accepted C entry point executed on an AddressSanitizer build under the controlled OpenMP runtime",
+    text="(i) The full product of semilocal mode x NLDF class (9) x fractional-Laplacian class (4) x SDMX class (7) x rho_mult is constructed and nfeat, get_feat_loc, the scaling-power list, the UEG vector and the recommended-normaliser list are compared for length, plus with normalisers assigned; for every family x mode x spin the counts are compared with what the semilocal plan, the NLDF generator (forward and reverse) and the SDMX generator actually return. (ii) For each constructor/wrapper a single-fault alphabet (249 invalid argument values: unknown strings, wrong lengths and types, zero/negative parameters, lambda<=1, index pairs out of range, wrong-shaped / non-contiguous / wrong-dtype arrays, size mismatches, exponent above alpha_max, lmax misuse) must raise. (iii) Every harness body of C10 plus stride/offset variants, end-to-end integrator calls and FFT plans run on the -fsanitize=address build at team sizes 1 and 3; any ASan report or crash is a violation.",
+    note="Single faults only; ASan sees out-of-bounds accesses of the instrumented libraries, not uninitialised reads; NotImplementedError from get_reasonable_normalizer counts as 'not available'.",
+    design="5/C18",
+)
+
 NOT_YET = {}
 
 
